@@ -393,7 +393,7 @@ def shard(ctx):
     install(ctx.R)
     # ---- every subset of the 11 options x 5 formats on small trees -------------------
     k = 0
-    reps = ctx.pick(1, 3)
+    reps = ctx.pick(1, 8)
     for r in range(len(OPTIONS) + 1):
         for subset in itertools.combinations(OPTIONS, r):
             k += 1
@@ -409,7 +409,7 @@ def shard(ctx):
                                                           'brackets'])})
             ctx.stratum('all option subsets (small tree)')
     # ---- random trees, random subsets ---------------------------------------------------
-    for i in ctx.indices(ctx.pick(2500, 120000)):
+    for i in ctx.indices(ctx.pick(2500, 500000)):
         rng = ctx.rng('rand', i)
         spec = make_tree(rng)
         subset = [o for o in OPTIONS if rng.random() < 0.3]
